@@ -18,18 +18,22 @@ SPEC = dict(
     theorems=[_T + n for n in [
         "symbol_cse_first", "init_clears_state",
         "llvm_table_agree", "llvm_differs_by_design", "relational_predicates", "rewrites_agree", "llvm_kinds_cover_lambda",
-        "compileT_correct", "initV_correct_plain", "reinit_fresh", "init_ok_state_clean",
+        "compileT_correct", "initV_correct_plain", "initV_wellformed", "compileT_wellformed", "reinit_fresh",
+        "init_ok_state_clean",
         "evalOp_fadd", "evalOp_fmul", "evalOp_square_eq_mul", "evalOp_call1", "evalOp_call2", "evalOp_exp2", "evalOp_powi",
         "evalOp_relational", "evalT_pw", "lower_add_shape",
     ]] + ["SymVerif.LLVMD." + n for n in [
         "exec_append", "exec_length", "exec_prefix", "mkFBin_ok", "mkFCmp_ok", "mkBop_ok", "mkNot_ok", "mkUIToFP_ok", "emitOp_ok",
         "compileT_sim", "compileTs_sim", "envOK_loads", "applyOuts_sim", "initV_plain", "initV_state_irrelevant",
+        "WFfrom_append", "emitOp_wf", "compileT_wf", "compileTs_wf", "envOf_lt", "applyOuts_wf", "applyRepl_wf", "initV_wf",
     ]],
     partial=["C14_full (def, not asserted): LLVM's optimiser, instruction selection, JIT linking and the object-file round "
              "trip of dumps/loads are outside the kernel",
-             "faithfulness of cse()'s factoring is a hypothesis (FaithfulT), it is property C37",
+             "the CSE path has no value-level theorem (it would need the faithfulness of cse()'s factoring, property C37): "
+             "for cse=true only well-formedness (initV_wellformed), state independence (reinit_fresh) and the exact IR "
+             "correspondence / cse_agree oracle apply",
              "agreement of the generated code's value with evalG (lambda_double) is proved per node kind "
-             "(evalT_* / lower_* lemmas), not as one theorem over all trees"],
+             "(llvm_table_agree, rewrites_agree, evalOp_* / evalT_pw / lower_add_shape), not as one theorem over all trees"],
     rule="one op = input symbols (random ordered subset of {x,y,z,x0,x1}) + 1-3 output expressions sharing subexpressions "
          "(random canonical trees over every node kind LLVMVisitor accepts: Add Mul Pow, 7 intrinsics, 15 external "
          "functions, the 12 RewriteTrigVisitor kinds, Sign, Max Min, relationals, And Or Xor Not, Contains, Piecewise, "
@@ -59,16 +63,18 @@ SPEC = dict(
         "SymEngine::cse is deterministic for identical arguments within one process",
     ],
     level_text="partial",
-    level_note="Proved (any number structure): the code generator emits a well-formed SSA program (every operand defined "
-               "earlier) whose execution returns, for every input vector, the reference value of the operator tree of each "
-               "output (compileT_correct, initV_correct_plain), also through the CSE path under the faithful-factoring "
-               "hypothesis, and a re-initialised visitor behaves like a fresh one once init clears its symbol tables; "
-               "per node kind the emitted intrinsic / libm call / predicate is the one lambda_double uses (llvm_table_agree, "
-               "by `decide` on the table regenerated from llvm_double.cpp), with the by-design differences listed "
-               "(exp2, powi, x*x, maxnum/minnum, ordered !=, Sign via Piecewise).  Tied to the code by EXACT equality of "
-               "the instruction sequence with the real module's IR at -O0.  NOT provable here: LLVM's optimiser, instruction "
-               "selection, JIT and the dumps/loads object round trip (exercised at levels 0-3, cse on/off, reload, three "
-               "float types by the oracles), IEEE rounding and libm.",
+    level_note="Proved (any number structure, any prior visitor state): the code generator emits a well-formed SSA program "
+               "(every operand a constant or an earlier result, every output defined; plain and CSE path) whose execution "
+               "returns, for every input vector, the reference value of the operator tree of each output (plain path: "
+               "compileT_correct, initV_correct_plain; IRBuilder's constant folding and the branch/phi code of Piecewise "
+               "included), and a re-initialised visitor behaves like a fresh one once init clears its symbol tables; per "
+               "node kind the emitted intrinsic / libm call / predicate and operand order is lambda_double's "
+               "(llvm_table_agree, rewrites_agree: `decide` on the tables regenerated from llvm_double.cpp and visitor.h), "
+               "the structural kinds are listed (llvm_differs_by_design).  Tied to the code by EXACT equality of the "
+               "instruction sequence with the real module's IR at -O0, cse off and on.  NOT proved: a value-level theorem "
+               "for the CSE path (needs C37).  NOT provable here: LLVM's optimiser, instruction selection, JIT and the "
+               "dumps/loads object round trip (exercised at levels 0-3, cse on/off, reload, three float types by the "
+               "oracles), IEEE rounding and libm.",
     technique="Lean 4: operator-tree lowering + SSA code generation with IRBuilder constant folding, simulation proof "
               "(run o compileT = evalT) by induction over operator trees; translated intrinsic/external/predicate table; "
               "certificate-mode correspondence on the real LLVM IR text",
